@@ -325,6 +325,17 @@ def _corpus():
     return out
 
 
+def _replay_cases(ctx):
+    """`find` cases named in a replay file given with --replay (run first, against the model)."""
+    rep = getattr(ctx, "replay", None) or {}
+    out = []
+    for f in [rep.get("failing_input")] + list(rep.get("failures", [])):
+        if f and str(f.get("sub", "")).startswith("json.") and str(f.get("case", "")).startswith("find "):
+            if f["case"] not in out:
+                out.append(f["case"])
+    return out
+
+
 def _run_impl(ctx, sub, exe, cases):
     """Run the ASan build; a sanitizer stop loses the rest of its shard, so re-run what is left.
     Returns outputs aligned with cases ('fault' for a case that raised a sanitizer report)."""
@@ -404,6 +415,20 @@ def gen_valid(ctx, n):
         if len(render(obj)) > 1500:
             continue
         out.append((lead, obj, trail, key, strict))
+    # a few big ones: many members, deep nesting (beyond the 6 of the ordinary generator)
+    for i in range(ctx.n(8, 300)):
+        strict = r.random() < 0.7
+        g = DocGen(r, strict)
+        pool = [b"k%d" % j for j in range(12)] + [b"k", b"k1x", b""]
+        obj = g.obj(1, [r.choice([40, 120])], pool)
+        for _ in range(r.randrange(0, 30)):
+            obj[2].append((g.ws(), g.items_for(r.choice(pool)), g.ws(), g.ws(), g.value(2, [10]), g.ws()))
+        obj[2].insert(r.randrange(len(obj[2]) + 1),
+                      (g.ws(), g.items_for(r.choice(pool)), g.ws(), g.ws(), g.chain(r.randrange(7, 40)), g.ws()))
+        key = r.choice(pool + [b"absent"])
+        if len(render(obj)) <= 8000:
+            out.append((g.ws(0.3), obj, g.ws(0.3), key, strict))
+            ctx.count("json.find.big_document")
     return out
 
 
@@ -412,7 +437,7 @@ def check_json_find(ctx):
     exe, mexe = _build(ctx, sub)
     if not exe:
         return
-    docs = gen_valid(ctx, ctx.n(5000, 120000))
+    docs = gen_valid(ctx, ctx.n(8000, 160000))
     cases, specs, want = [], [], []
     for lead, obj, trail, key, strict in docs:
         text = lead + render(obj) + trail
@@ -438,6 +463,13 @@ def check_json_find(ctx):
                 ctx.count("json.find.python_json_validated")
             if e:
                 ctx.fail(sub, "tie", c, e)
+    # replayed / corpus cases have no abstract document: C against the model only (proved = spec)
+    extra = _replay_cases(ctx) + [c for c in _corpus() if c.startswith("find ")]
+    if extra:
+        ei = _run_impl(ctx, sub, exe, extra)
+        em, _ = vlib.run_sharded(mexe, extra)
+        vlib.tri_compare(ctx, sub, extra, ei, em, None)
+        ctx.count("json.find.corpus", len(extra))
     impl = _run_impl(ctx, sub, exe, cases)
     model, _ = vlib.run_sharded(mexe, cases)
     spec, _ = vlib.run_sharded(mexe, specs)
@@ -562,8 +594,8 @@ def check_json_safety(ctx):
     exe, mexe = _build(ctx, sub)
     if not exe:
         return
-    corpus = [c for c in _corpus() if c.startswith("find ")]
-    cases = corpus + gen_hostile(ctx, ctx.n(6000, 150000))
+    corpus = _replay_cases(ctx) + [c for c in _corpus() if c.startswith("find ")]
+    cases = corpus + gen_hostile(ctx, ctx.n(10000, 250000))
     ctx.count("json.safety.corpus", len(corpus))
     impl = _run_impl(ctx, sub, exe, cases)
     model, _ = vlib.run_sharded(mexe, cases)
